@@ -400,6 +400,13 @@ func gen(args []string) {
 		// era
 		var sec int64
 		switch e := r.Intn(10); {
+		case flusher && r.Chance(1, 8):
+			// a few seconds before the Unix epoch, so that a flush lands exactly on it (the instant whose UnixNano is 0)
+			sec = zeroToUnix + int64(r.Range(-20, 2))
+			if r.Bool() {
+				I, off = 1_000_000_000, 0
+			}
+			st.Hit("flusher-across-unix-epoch")
 		case flusher || e < 4:
 			sec = nowSec + int64(r.Range(-3_000_000_000, 3_000_000_000))
 		case e == 4:
